@@ -27,6 +27,7 @@ import (
 	"sort"
 	"strings"
 	"sync"
+	"sync/atomic"
 	"time"
 
 	"verifharness/clusterlib"
@@ -74,14 +75,36 @@ func pInt(c *hx.Case, k string, d int) int {
 	return d
 }
 
-const stepTimeout = 3 * time.Second
+// a healthy step takes microseconds to a few milliseconds. Once a step of a case timed out the case is stalled and its
+// remaining waits are short; once several cases of this process did not complete (a broken tree), all waits are short.
+var stepTimeout = 2 * time.Second
+var incomplete atomic.Int32
+
+const shortTimeout = 150 * time.Millisecond
 
 type runner struct {
+	stalled bool
 	c     *clusterlib.Cluster
 	sc    *clusterlib.Script
 	w     int // current worker count of the job
 	tags  map[string]bool
 	notes []string
+}
+
+func (r *runner) timeout() time.Duration {
+	if r.stalled || incomplete.Load() >= 4 {
+		return shortTimeout
+	}
+	return stepTimeout
+}
+
+// wait waits on explicit signals for cond; a timeout marks the case as stalled
+func (r *runner) wait(cond func(l *clusterlib.Log) bool) bool {
+	if r.c.Await(cond, r.timeout()) {
+		return true
+	}
+	r.stalled = true
+	return false
 }
 
 func keyBytes(k int) []byte { return []byte(fmt.Sprintf("key-%d", k)) }
@@ -182,7 +205,7 @@ func (r *runner) crash(cr *crashJ) {
 		for _, v := range victims {
 			r.c.Kill(v)
 		}
-		r.c.AwaitStopped(victims, stepTimeout)
+		r.c.AwaitStopped(victims, r.timeout())
 		// acknowledgements of survivors that were held back reach the job now
 		for _, a := range r.c.Parked() {
 			r.c.Release(a)
@@ -196,8 +219,9 @@ func (r *runner) crash(cr *crashJ) {
 		}
 		r.c.StartWorkers(len(victims))
 	}
-	if !r.c.AwaitRunning(genBefore, stepTimeout) {
+	if !r.c.AwaitRunning(genBefore, r.timeout()) {
 		r.tags["restart-not-running"] = true
+		r.stalled = true
 	}
 }
 
@@ -250,7 +274,7 @@ func (r *runner) checkpoint(o *opJ) {
 		if released >= r.w {
 			expect = total - released
 		}
-		if !r.c.Await(func(*clusterlib.Log) bool { return len(r.c.Parked()) >= expect }, stepTimeout) {
+		if !r.wait(func(*clusterlib.Log) bool { return len(r.c.Parked()) >= expect }) {
 			r.tags["ckpt-acks-missing"] = true
 			if len(r.c.Parked()) == 0 {
 				return
@@ -270,7 +294,14 @@ func (r *runner) checkpoint(o *opJ) {
 		r.c.Release(parked[pick])
 		released++
 	}
-	if !r.c.AwaitPublished(id, stepTimeout) {
+	if !r.wait(func(l *clusterlib.Log) bool {
+		for _, p := range l.Published {
+			if p.ID == id && p.Done {
+				return true
+			}
+		}
+		return false
+	}) {
 		r.tags["ckpt-not-published"] = true
 		return
 	}
@@ -367,7 +398,8 @@ func (eng) execute(mode string, c *hx.Case) (*hx.Result, error) {
 	defer cl.Close()
 	r := &runner{c: cl, sc: sc, w: w, tags: map[string]bool{}}
 	cl.StartWorkers(w)
-	if !cl.AwaitRunning(0, stepTimeout) {
+	if !cl.AwaitRunning(0, r.timeout()) {
+		incomplete.Add(1)
 		return nil, fmt.Errorf("cluster did not start: %v", cl.Log().Errors)
 	}
 
@@ -388,7 +420,7 @@ func (eng) execute(mode string, c *hx.Case) (*hx.Result, error) {
 			}
 		case "drain":
 			if r.running() {
-				if !cl.Await(func(l *clusterlib.Log) bool { return r.readAllCond()(l) && r.drainedCond()(l) }, stepTimeout) {
+				if !r.wait(func(l *clusterlib.Log) bool { return r.readAllCond()(l) && r.drainedCond()(l) }) {
 					r.tags["drain-timeout"] = true
 				}
 			}
@@ -407,28 +439,39 @@ func (eng) execute(mode string, c *hx.Case) (*hx.Result, error) {
 	// finale: let the run finish; if the cluster is wedged (e.g. all workers died), restart everything like a supervisor would
 	sc.AllowAll()
 	completed := false
-	for attempt := 0; attempt < 3 && !completed; attempt++ {
-		ok := r.running() && cl.Await(func(l *clusterlib.Log) bool { return r.readAllCond()(l) && r.drainedCond()(l) }, stepTimeout)
+	for attempt := 0; attempt < 2 && !completed; attempt++ {
+		r.stalled = false
+		allApplied := func(l *clusterlib.Log) bool { return r.readAllCond()(l) && r.drainedCond()(l) }
+		ok := r.running() && r.wait(allApplied)
 		if ok {
 			// probes: one per key, appended now that everything else has been applied
 			for _, k := range keyList {
 				sc.Append(k%sc.NumSplits(), clusterlib.Record{ID: uint32(1000000 + attempt*1000 + k), Key: keyBytes(k), Probe: true})
 			}
 			sc.AllowAll()
-			ok = cl.Await(func(l *clusterlib.Log) bool { return r.readAllCond()(l) && r.drainedCond()(l) }, stepTimeout)
+			ok = r.wait(allApplied)
 		}
 		if ok {
 			completed = true
 			break
 		}
+		if attempt == 1 {
+			break
+		}
 		r.tags["wedged-restarted"] = true
+		r.stalled = false
 		gb := cl.Generation()
 		if err := cl.RestartJob(r.w); err != nil {
 			r.notes = append(r.notes, "RestartJob: "+err.Error())
 			break
 		}
 		cl.StartWorkers(r.w)
-		cl.AwaitRunning(gb, stepTimeout)
+		if !cl.AwaitRunning(gb, r.timeout()) {
+			break
+		}
+	}
+	if !completed {
+		incomplete.Add(1)
 	}
 
 	l := cl.Log()
@@ -683,7 +726,9 @@ func (eng) Generate(mode, tier string, r *hx.Rand) []*hx.Case {
 	}
 	var cs []*hx.Case
 	for i := 0; i < n; i++ {
-		cs = append(cs, genCase(r.Fork(), i, tier))
+		// hx.NewRand(seed) and hx.NewRand(seed+1) walk the same splitmix sequence one step apart, so r.Fork() alone would
+		// make case i of seed k equal to case i+1 of seed k-1; mixing the index in keeps the seeds' case sets apart
+		cs = append(cs, genCase(hx.NewRand(r.U64()^(uint64(i+1)*0xD6E8FEB86659FD93)), i, tier))
 	}
 	return cs
 }
